@@ -50,6 +50,7 @@ func init() {
 		e.RCover("decorate", e.astNodeNames(), false)
 		e.RCover("restore", e.dstNodeNames(), true)
 		e.RMaps()
+		e.RSyntheticBackMap()
 		e.RMemo()
 		e.RSym()
 		e.RSharedMapsNotReplaced()
